@@ -27,7 +27,7 @@ import (
 
 var symbols = []string{"a", " ", "\n", "{", "}", "\"", "\\", "#", ",", "import ", "(s)", "{$V}", "\ufeff", "s"}
 
-var lineAlpha = []string{"a", "a {", "}", "{", "import f", "import s", "import g*", "(s) {", "a b", "\"", "import cyc1", "import self", "d {", "a, b"}
+var lineAlpha = []string{"a", "a {", "}", "{", "import f", "import s", "import g*", "(s) {", "a b", "\"", "import cyc1", "import self", "d {", "a, b", "import \"n\nl\"", "import empty"}
 
 type parseResult struct {
 	blocks []casketfile.ServerBlock
@@ -144,7 +144,7 @@ func startWatchdog(rep *kit.Report) {
 	}()
 }
 
-var errRe = regexp.MustCompile(`^(.*?):(\d+) - (Error during parsing|Syntax error): `)
+var errRe = regexp.MustCompile(`(?s)^(.*?):(\d+) - (Error during parsing|Syntax error): `) // (a file name may contain a line break)
 
 type strCase struct {
 	Input string `json:"input"`
@@ -209,6 +209,8 @@ func setupFiles() map[string]bool {
 	w("cyc2", "import cyc1\n")
 	w("self", "q\nimport self\n")
 	w("s", "s-file\n")
+	w("n\nl", "import \"n\nl\"\n") // a file whose name contains a line break and which imports itself
+	w("empty", "")                 // a zero-byte file
 	known[filepath.Join(dir, "Casketfile")] = true
 	return known
 }
@@ -220,7 +222,12 @@ func partA(rep *kit.Report, known map[string]bool) {
 		L, M = 7, 6
 	}
 	name := filepath.Join(dir, "Casketfile")
-	for _, env := range []string{"val", "", "{"} {
+	L0, M0 := L, M
+	for ei, env := range []string{"val", "", "{", "{$V}", "a\nb"} { // (the last two: a value that names itself; a value with a line break)
+		L, M = L0, M0
+		if ei >= 3 {
+			L, M = L0-1, M0-1 // the two unusual values with strings and line sequences one shorter
+		}
 		if env == "" {
 			os.Unsetenv("V")
 		} else {
@@ -305,7 +312,7 @@ type blockAST struct {
 	Dirs []dirAST
 }
 
-var tokAlpha = []string{"a", "b c", "q\"q", "", "x{$V}y", "multi\nline", "e\\\nf"}
+var tokAlpha = []string{"a", "b c", "q\"q", "", "x{$V}y", "multi\nline", "e\\\nf", "{$}{$V}"}
 
 func needsQuote(t string) bool {
 	return t == "" || strings.ContainsAny(t, " \t\n\"#") || t == "{" || t == "}"
@@ -386,6 +393,9 @@ func (l layout) render(blocks []blockAST, split, mode int) (main string, files m
 					dl = append([]string{"import" + l.sep + "nothing"}, dl...)
 				case 4: // likewise an import file holding only a comment
 					files["imp0"] = "# nothing here\n"
+					dl = append([]string{"import" + l.sep + "imp0"}, dl...)
+				case 5: // likewise a zero-byte import file
+					files["imp0"] = ""
 					dl = append([]string{"import" + l.sep + "imp0"}, dl...)
 				}
 			}
@@ -634,7 +644,7 @@ func partB(rep *kit.Report) {
 				}
 			}
 		}
-		for _, env := range []string{"val", ""} {
+		for _, env := range []string{"val", "", "x\ny", "{$V}"} {
 			if env == "" {
 				os.Unsetenv("V")
 			} else {
@@ -650,7 +660,7 @@ func partB(rep *kit.Report) {
 					lay.braceNL = false
 				}
 				for split := -1; split < nd; split++ {
-					for mode := 1; mode <= 4; mode++ {
+					for mode := 1; mode <= 5; mode++ {
 						if split == -1 && mode >= 2 {
 							continue
 						}
@@ -688,13 +698,13 @@ func partB(rep *kit.Report) {
 							}
 							where := "inline"
 							if split >= 0 {
-								where = []string{"", "import-file", "snippet", "empty-snippet", "empty-import-file"}[mode]
+								where = []string{"", "import-file", "snippet", "empty-snippet", "empty-import-file", "zero-byte-import-file"}[mode]
 							}
 							rep.Violation("C10/round-trip/"+kind+"/"+where, "parsed structure differs from the printed AST", rtCase{main, files, env, w, g, fmt.Sprintf("%+v", lay)})
 						}
 						cl := "inline"
 						if split >= 0 {
-							cl = []string{"", "import-file", "snippet", "empty-snippet", "empty-import-file"}[mode]
+							cl = []string{"", "import-file", "snippet", "empty-snippet", "empty-import-file", "zero-byte-import-file"}[mode]
 						}
 						local[fmt.Sprintf("round-trip/%s/blocks=%d/dirs=%d", cl, len(ast), nd)]++
 					}
@@ -711,7 +721,7 @@ func partB(rep *kit.Report) {
 
 func main() {
 	rep := kit.NewReport("C10", "exploration",
-		"(a) every string of <=6 (thorough 7) symbols over a 14-symbol macro-alphabet and every sequence of <=5 (6) lines over a 14-line alphabet with import targets that are acyclic, self-importing and mutually importing, x 3 environments, each parsed under a watchdog; (b) every AST of a menu (~1k) x 288 layouts x every single-directive split into an import file or snippet x 2 environments, printed, parsed and compared; distinct_nontrivial = outcome classes (error kinds, block counts, round-trip shapes)")
+		"(a) every string of <=6 (thorough 7) symbols over a 14-symbol macro-alphabet and every sequence of <=5 (6) lines over a 14-line alphabet with import targets that are acyclic, self-importing and mutually importing, x 3 environments (and, one symbol shorter, 2 more: a value naming itself, a value with a line break), each parsed under a watchdog; (b) every AST of a menu (~1k) x 288 layouts x every single-directive split into an import file or snippet x 2 environments, printed, parsed and compared; distinct_nontrivial = outcome classes (error kinds, block counts, round-trip shapes)")
 	if !rep.IsWorker() {
 		rep.Assume("environment values never contain placeholder syntax; glob imports limited to one pattern; import targets live next to the Casketfile")
 		rep.RunWorkers(16)
